@@ -1,13 +1,16 @@
 CONSTANTS
  Keys = {"k1","k2"}
  ContentLen = 4
- Ranges <- R_big
+ Ranges <- R_small
+ RepStates = {"present","absent","timeout","stalled"}
  MaxOps = 1000000
  DevNoFallback = FALSE
  DevFallbackDropsRange = FALSE
  DevIndexNoFallback = FALSE
  DevWriteToReplica = FALSE
  DevListFromReplica = FALSE
+ DevNoFallbackOnCtxErr = FALSE
+ DevReplicaTimeoutShadows = FALSE
 INIT Init
 NEXT Next
 INVARIANTS C44_ReadMatchesPrimary C44_PrimaryOnly C44_ReachesPrimary ReplicaIsCopy
